@@ -86,6 +86,12 @@ func CopyTx(tx types.Tx) types.Tx {
 			panic("mempoolrig: decode tx: " + err.Error())
 		}
 		return cp
+	case *types.UTXOTransaction:
+		cp, err := wireUTXO(t)
+		if err != nil {
+			panic("mempoolrig: copy utxo tx: " + err.Error())
+		}
+		return cp
 	}
 	if TxCopier != nil {
 		if cp := TxCopier(tx); cp != nil {
@@ -202,6 +208,7 @@ type World struct {
 	Blocks    []*types.Block         // committed blocks, Blocks[0] = height 1
 	valByAddr map[string]simnode.ValKey
 	lastSeen  *types.Commit
+	Seen      []*types.Commit // Seen[i]: the commit this world made for Blocks[i]
 	incarn    int
 
 	Park *ParkApp // scheduler seam installed on Chain.Mempool
@@ -381,6 +388,19 @@ type CommitResult struct {
 // and on the replica, and applies it to the ledger. The block must come from
 // Propose. Nothing is committed unless both replicas accept the block.
 func (w *World) Commit(block *types.Block) (res CommitResult) {
+	res, _ = w.CommitCrash(block, nil)
+	return
+}
+
+// CommitCrash is Commit with a process crash of the node under test at a
+// write boundary inside its CommitBlock/ApplyBlock: the replica commits first
+// with its write log on; pick sees that log (sequence numbers relative to the
+// start of the commit) and returns the boundary after which the node's durable
+// image is frozen (0: no crash). The node then runs the same commit to the
+// end as a zombie (so that the world and the model advance) and the frozen
+// image (nil when the boundary was not reached) is returned; the caller
+// restarts the node from it.
+func (w *World) CommitCrash(block *types.Block, pick func(rel []simdb.WriteRec) int) (res CommitResult, frozen *simdb.Image) {
 	wb, parts, err := w.Wire(block)
 	if err != nil {
 		res.Err = fmt.Errorf("wire: %v", err)
@@ -401,19 +421,81 @@ func (w *World) Commit(block *types.Block) (res CommitResult) {
 	id := types.BlockID{Hash: wb.Hash(), PartsHeader: parts.Header()}
 	seen := w.signCommit(w.Chain.Status.Validators, id, wb.Height)
 
-	if err := w.commitOn(w.Chain, wb, parts, seen); err != nil {
-		res.Err = fmt.Errorf("node: %v", err)
-		return
+	commitRep := func() bool {
+		w.Rep.RegisterRate()
+		if err := w.commitOn(w.Rep, rb, rparts, seen); err != nil {
+			res.Err = fmt.Errorf("replica: %v", err)
+			return false
+		}
+		return true
 	}
-	w.Rep.RegisterRate()
-	if err := w.commitOn(w.Rep, rb, rparts, seen); err != nil {
-		res.Err = fmt.Errorf("replica: %v", err)
-		return
+	commitNode := func() bool {
+		w.Chain.RegisterRate()
+		if err := w.commitOn(w.Chain, wb, parts, seen); err != nil {
+			res.Err = fmt.Errorf("node: %v", err)
+			return false
+		}
+		return true
+	}
+	if pick == nil {
+		if !commitNode() || !commitRep() {
+			return
+		}
+	} else {
+		rd := w.Rep.Disk
+		rd.KeepLog(true)
+		r0, n0 := rd.Seq(), len(rd.Log())
+		okRep := commitRep()
+		log := rd.Log()[n0:]
+		rd.KeepLog(false)
+		if !okRep {
+			return
+		}
+		rel := make([]simdb.WriteRec, len(log))
+		for i, r := range log {
+			r.Seq -= r0
+			rel[i] = r
+		}
+		d := w.Chain.Disk
+		if k := pick(rel); k > 0 {
+			d.Frozen = nil
+			d.FreezeAt = d.Seq() + k
+			side := d.Dir() + ".frozen"
+			d.OnFreeze = func() {
+				os.RemoveAll(side)
+				copyDir(d.Dir(), side)
+			}
+		}
+		okNode := commitNode()
+		frozen = d.Frozen
+		d.FreezeAt, d.OnFreeze = 0, nil
+		if !okNode {
+			return
+		}
 	}
 	w.Chain.RegisterRate()
 	w.lastSeen = seen
+	w.Seen = append(w.Seen, seen)
 	w.noteCommitted(wb)
 	return
+}
+
+// copyDir copies the regular files of src (one level and below) to dst.
+func copyDir(src, dst string) {
+	filepath.Walk(src, func(p string, info os.FileInfo, err error) error {
+		if err != nil {
+			return nil
+		}
+		rel, _ := filepath.Rel(src, p)
+		if info.IsDir() {
+			os.MkdirAll(filepath.Join(dst, rel), 0755)
+			return nil
+		}
+		if b, err := os.ReadFile(p); err == nil {
+			os.WriteFile(filepath.Join(dst, rel), b, 0644)
+		}
+		return nil
+	})
 }
 
 func (w *World) commitOn(ch *simnode.Chain, b *types.Block, parts *types.PartSet, seen *types.Commit) error {
@@ -433,42 +515,100 @@ func (w *World) noteCommitted(b *types.Block) {
 	w.Blocks = append(w.Blocks, b)
 	for _, tx := range b.Data.Txs {
 		w.Committed[tx.Hash()] = b.Height
-		if t, ok := tx.(*types.Transaction); ok {
-			from, err := t.From()
-			if err == nil {
-				w.Led.ApplyTransfer(from, t)
-			}
-		} else if LedgerApply != nil {
-			LedgerApply(w, tx)
-		}
+		w.Led.ApplyTx(tx)
 	}
 	if w.OnCommitted != nil {
 		w.OnCommitted(b)
 	}
 }
 
-// LedgerApply lets other tx kinds (txgen) update the ledger.
-var LedgerApply func(w *World, tx types.Tx)
+// ApplyTx books one committed (or to-be-committed) transaction; false when it
+// is not executable at this point of the ledger.
+func (l *Ledger) ApplyTx(tx types.Tx) bool {
+	switch t := tx.(type) {
+	case *types.Transaction:
+		from, err := t.From()
+		if err != nil {
+			return false
+		}
+		ok, _ := l.ApplyTransfer(from, t)
+		return ok
+	case *types.UTXOTransaction:
+		if from, nonce, cost, ok := AcctPart(t); ok {
+			a := l.Get(from)
+			if a.Nonce != nonce || a.Balance.Cmp(cost) < 0 {
+				return false
+			}
+		}
+		l.applyUTXO(t)
+		return true
+	}
+	return false
+}
 
 // Restart replaces the node under test by a fresh assembly over img (nil: the
-// node's current disk content), the way a process restart does. The old
-// mempool is stopped. Returns the error of the assembly.
-func (w *World) Restart(img *simdb.Image) error {
+// node's current disk content), the way a process restart does. fromFrozen
+// says that img is the crash image of CommitCrash (the node's real files are
+// taken from the copy made at the freeze). The old mempool is stopped. When
+// the restarted node is behind the world (the crash came before the block
+// became visible) the missing blocks are fed to it again, as block sync would.
+func (w *World) Restart(img *simdb.Image, fromFrozen bool) (resynced int, err error) {
 	old := w.Chain
 	if img == nil {
 		img = old.Disk.Snapshot()
 	}
 	w.StopMempool(old)
 	w.incarn++
-	d := simdb.NewDiskFromImage(img, old.Disk.Dir())
-	ch, err := simnode.OpenChain(d, simnode.ChainOpts{IsTrie: w.Cfg.IsTrie, MempoolCfg: cloneMemCfg(w.Cfg.Mem)})
+	dir := old.Disk.Dir()
+	if fromFrozen {
+		side := dir + ".frozen"
+		if _, e := os.Stat(side); e == nil {
+			os.RemoveAll(dir)
+			os.Rename(side, dir)
+		}
+	}
+	d := simdb.NewDiskFromImage(img, dir)
+	var ch *simnode.Chain
+	site, msg, panicked := kernel.Try(func() {
+		ch, err = simnode.OpenChain(d, simnode.ChainOpts{IsTrie: w.Cfg.IsTrie, MempoolCfg: cloneMemCfg(w.Cfg.Mem)})
+	})
+	if panicked {
+		return 0, fmt.Errorf("assembly panicked at %s: %s", site, msg)
+	}
 	if err != nil {
-		return err
+		return 0, err
 	}
 	w.Chain = ch
 	ch.RegisterRate()
 	w.installPark()
-	return nil
+	// catch up
+	for ch.Status.LastBlockHeight < uint64(len(w.Blocks)) {
+		h := ch.Status.LastBlockHeight + 1
+		if ch.App.Height() >= h {
+			return resynced, fmt.Errorf("store at height %d but status at %d after the startup reconciliation", ch.App.Height(), ch.Status.LastBlockHeight)
+		}
+		b, parts, err := w.Wire(w.Blocks[h-1])
+		if err != nil {
+			return resynced, err
+		}
+		var ok bool
+		site, msg, panicked := kernel.Try(func() { ok = ch.App.CheckBlock(b) })
+		if panicked {
+			return resynced, fmt.Errorf("CheckBlock of committed block %d panicked at %s: %s", h, site, msg)
+		}
+		if !ok {
+			return resynced, fmt.Errorf("the restarted node refuses committed block %d", h)
+		}
+		site, msg, panicked = kernel.Try(func() { err = w.commitOn(ch, b, parts, w.Seen[h-1]) })
+		if panicked {
+			return resynced, fmt.Errorf("commit of block %d panicked at %s: %s", h, site, msg)
+		}
+		if err != nil {
+			return resynced, err
+		}
+		resynced++
+	}
+	return resynced, nil
 }
 
 func cloneMemCfg(m *cfg.MempoolConfig) *cfg.MempoolConfig {
